@@ -3,6 +3,8 @@ from __future__ import annotations
 
 import random
 
+import math
+
 import numpy as np
 import z3
 
@@ -234,8 +236,11 @@ def gate_guard(fn):
     try:
         return fn()
     except AssertionError as e:
-        if str(e).startswith("Negative"):
-            raise GateRejected(str(e)[:200]) from e
+        import traceback
+
+        tb = traceback.extract_tb(e.__traceback__)
+        if str(e).startswith("Negative") or (tb and tb[-1].name == "assert_valid_covariance"):
+            raise GateRejected((str(e) or "assert_valid_covariance")[:200]) from e
         raise
 
 
@@ -260,3 +265,56 @@ def second_env(env, suffix="__2", keep=()):
 def subst_env(term, env, env2):
     pairs = [(env[n], env2[n]) for n in env if not env[n].eq(env2[n])]
     return z3.substitute(term, *pairs) if pairs else term
+
+
+# ------------------------------------------------------------------------------------------- value regimes (concrete)
+
+
+def regime_envs(p, rng, readings_for=None):
+    """Valid inputs in value regimes where a hidden absolute tolerance (1e-8, 1e-12, machine epsilon) in the code under
+    test would matter although every quantity is perfectly well conditioned *relative to its own scale*:
+      tiny-cov    covariance and all noise variances scaled by 1e-14 (sigma ~ 1e-7 in the state's units)
+      tiny-state  states and controls ~ 1e-9, dt = 2^-9
+      huge-state  states ~ 1e5 .. 1e6
+    Returns [(label, env)] with env entries for dt / state / control / calibration, P_*, pn_*, sn_* (and z_<key>_<r>
+    close to the predicted reading when readings_for is a sensor key).  These points are *replayed* on the real code;
+    they are outside what the exact-real solver queries can distinguish from their O(1) images."""
+    out = []
+    names = list(input_env(p))
+    for label in ("tiny-cov", "tiny-state", "huge-state"):
+        e = {nm: rng.randint(-16, 16) / 8.0 for nm in names}
+        e[p.dt] = rng.choice([0.125, 0.0625, 0.375])
+        cov = seeded_cov_env(p.state, rng)
+        cs, ns = 1.0, 1.0
+        if label == "tiny-cov":
+            cs = ns = 2.0 ** -46  # ~1.4e-14
+        elif label == "tiny-state":
+            for nm in list(p.state) + list(p.control):
+                e[nm] = rng.choice([-1, 1]) * rng.randint(3, 16) / 8.0 * 2.0 ** -30  # ~1e-9
+            e[p.dt] = 2.0 ** -9
+        else:
+            for nm in p.state:
+                e[nm] = rng.choice([-1, 1]) * rng.randint(8, 80) / 8.0 * 2.0 ** 17  # 1.3e5 .. 1.3e6
+        for k_, v in cov.items():
+            e[k_] = v * cs
+        for c in p.control:
+            e[f"pn_{c}"] = float(p.process_noise[c]) * ns
+        for key in p.sensors:
+            for r in p.sensors[key]:
+                e[f"sn_{key}_{r}"] = float(p.sensor_noise[key][r]) * ns
+        if readings_for is not None:
+            for r in p.sensors[readings_for]:
+                h = X.evalf(p.sensors[readings_for][r], e)
+                e[f"z_{readings_for}_{r}"] = h + rng.choice([-1, 1]) * (abs(h) * 2.0 ** -20 + math.sqrt(cs) * 0.25)
+        out.append((label, e))
+    return out
+
+
+def mag_close(got, want, mag, rel=1e-9):
+    """|got - want| within rel * (magnitude bound of the specification's operands)."""
+    got, want, mag = np.asarray(got, dtype=float), np.asarray(want, dtype=float), np.asarray(mag, dtype=float)
+    if got.shape != want.shape:
+        return False
+    if not np.all(np.isfinite(want)):
+        return True  # specification undefined at this point: outside the claim
+    return bool(np.all(np.isfinite(got)) and np.all(np.abs(got - want) <= rel * mag + 1e-300))
